@@ -936,3 +936,19 @@ Lemma stop_handler_base_refuted :
   snd r = [OOk; OOk; OOk; OOk; OOk; OExc EBase] /\ rel (fst r) = [] /\ hruns (fst r) = [0] /\
   match cur (fst r) with Some c => active c = true /\ cthreads c = [0; 1] /\ router c = true | None => False end.
 Proof. vm_compute. repeat split; reflexivity. Qed.
+
+Require QV.C12.TaskPop.
+Lemma stop_reclaims_objects_and_tasks : forall w c (honours : nat -> bool) order p,
+  Inv w -> cur w = Some c -> active c = true -> all_caught w c = true ->
+  (forall i, honours i = true) -> (forall i, In i order -> i < length (TaskPop.tasks p)) ->
+  (exists w' c', ctx_stop c w = Ret w' /\ cur w' = Some c' /\
+     (forall o, In o (live_oids (objmap c)) -> count_occ Nat.eq_dec (rel w') o = 1) /\
+     objmap c' = [] /\ handlers c' = [] /\ cthreads c' = [] /\ router c' = false /\ active c' = false) /\
+  (exists p', TaskPop.stop_seq honours TaskPop.NotifyAll order p = Some p' /\
+     forall i, In i order -> TaskPop.ended (TaskPop.getT p' i) = true).
+Proof.
+  intros w c honours order p I Hc A AC H Ho. split.
+  - destruct (stop_reclaims w c I Hc A AC) as [w' [c' K]]. exists w', c'.
+    destruct K as [K1 [K2 [K3 [_ [_ [K6 [K7 [K8 [K9 [_ [_ [_ [K13 _]]]]]]]]]]]]]. repeat split; assumption.
+  - destruct (TaskPop.stop_seq_all_terminates honours H order p Ho) as [p' [E [_ [A' _]]]]. exists p'. split; assumption.
+Qed.
